@@ -108,6 +108,20 @@ CHECKS['C02'] = (
     'the GGN methods are outside the supported configurations and skipped (counted).',
     'DESIGN.md 3/C02')
 
+CHECKS['C07'] = (
+    'complete enumeration of carrier-order permutations over a validity alphabet of carrier lists, and of band-edge spectra '
+    'x carrier orders over every simple path of single-, two-, three-band and mixed networks, against an independent band model',
+    'Part 1: 131 carrier lists (every typing of 3 touching channels from 4 channel types, every one-step overlap, baud>slot '
+    'variants, 5-channel lists, equal frequencies) x all permutations x both constructors: invalid lists raise SpectrumError in '
+    'every order, valid lists build the identical spectrum in every order. Part 2: 7 designed networks (C auto-designed, C+L, '
+    'C+L+S, C then C+L, narrow-C preamp, C+L+S then C+L, SI wider than the amplifiers) x every simple path x spectra with '
+    'channels exactly on / inside / across / outside each edge of the path\'s common bands x 4 carrier orders: the set after the '
+    'filter equals the independent band model, the launched identity tuples are found unchanged at every recorded snapshot and '
+    'at the receiver, results are equal for all orders.',
+    'Bands are read from the built amplifier elements; the three-band amplifier is a synthetic library entry (S band); networks '
+    'have <= 3 ROADM sites.',
+    'DESIGN.md 3/C07')
+
 ALL = [f'C{i:02d}' for i in range(1, 21)]
 NOT_BUILT_REASON = 'check not built yet in this round (planned, see DESIGN.md section 3); not claimed until it runs'
 
